@@ -27,7 +27,9 @@ type Fail struct {
 }
 
 // Failf builds a Fail.
-func Failf(key, format string, a ...any) *Fail { return &Fail{Key: key, Msg: fmt.Sprintf(format, a...)} }
+func Failf(key, format string, a ...any) *Fail {
+	return &Fail{Key: key, Msg: fmt.Sprintf(format, a...)}
+}
 
 // Check is one generated check: Gen draws a case, Eval decides it.
 type Check[C any] struct {
